@@ -290,8 +290,8 @@ def _prop_stubs(I, c, o):
     return RP, DP, {"ReactionProp": st_r, "DiffusionProp": st_d}
 
 
-def compute_propensities_case(cls):
-    P = "C07/%s::ComputePropensities" % cls
+def compute_propensities_case(cls, prop="C07"):
+    P = "%s/%s::ComputePropensities" % (prop, cls)
 
     def run(api):
         prog = C11.program()
@@ -334,8 +334,8 @@ def compute_propensities_case(cls):
     return Case("%s/ComputePropensities" % cls, run, functions=["%s::ComputePropensities" % cls], conc=False, max_paths=3000)
 
 
-def iterate_case(cls):
-    P = "C07/%s::Iterate" % cls
+def iterate_case(cls, prop="C07"):
+    P = "%s/%s::Iterate" % (prop, cls)
 
     def run(api):
         from vc.cppsym.interp import CLOG
@@ -422,8 +422,8 @@ def poisson_wrapper_case(cls):
     return Case("%s/Poisson" % cls, run, functions=["%s::Poisson" % cls], conc=False)
 
 
-def compute_nevt_case(cls):
-    P = "C07/%s::Compute_nevt" % cls
+def compute_nevt_case(cls, prop="C07"):
+    P = "%s/%s::Compute_nevt" % (prop, cls)
 
     def run(api):
         prog = C11.program()
@@ -710,5 +710,8 @@ if z3 is not None:
                   diffusion_prop_case(_c), compute_propensities_case(_c), iterate_case(_c), iterate_state_case(_c)]
     CASES += [totals_case("Gillespie3D"), draw_complete_case("Gillespie3D"), totals_case("GillespieGraph"),
               draw_complete_case("GillespieGraph")]
+    # volume-scaled constants of the propensities: Build_mesh_kr contract (shared with C01)
+    from props import C01_engine as _ENG
+    CASES += [_ENG.build_kr_case("Gillespie3D", "C07"), _ENG.build_kr_case("GillespieGraph", "C07")]
     for _c in TAU:
         CASES += [reaction_prop_case(_c), diffusion_prop_case(_c), poisson_wrapper_case(_c), compute_nevt_case(_c)]
